@@ -39,8 +39,9 @@ class Endpoint:
         self.seq = {False: isn_c, True: isn_s}
 
 
-def tcp_frames(ep, items, t0=100.0, dt=1.0, group=None):
-    """One TCP segment per item (or per group of items): -> list of (frame, ts, from_server, item indices)."""
+def tcp_frames(ep, items, t0=100.0, dt=1.0, group=None, seg_size=None):
+    """One TCP segment per item (or per group of items; or items cut into seg_size-byte segments):
+    -> list of (frame, ts, from_server, item indices)."""
     from tlv.oracle import frames as F
     out = []
     groups = group or [[i] for i in range(len(items))]
@@ -53,12 +54,14 @@ def tcp_frames(ep, items, t0=100.0, dt=1.0, group=None):
             data = data + items[i].data
         src = (ep.s_ip, ep.s_port, ep.s_mac) if from_server else (ep.c_ip, ep.c_port, ep.c_mac)
         dst = (ep.c_ip, ep.c_port, ep.c_mac) if from_server else (ep.s_ip, ep.s_port, ep.s_mac)
-        seq = ep.seq[from_server]
-        ep.seq[from_server] = seq + len(data)
-        seg = F.tcp_segment(F.u16(src[1]), F.u16(dst[1]), F.u32(seq & 0xFFFFFFFF), F.u32(0), 0x18, data)
-        frame = F.ethernet(dst[2], src[2], ep.ipv == 6, F.ip_header(ep.ipv == 6, src[0], dst[0], 6, len(seg)) + seg)
-        out.append((frame, t, from_server, list(g)))
-        t += dt
+        pieces = [data] if not seg_size else [data[k:k + seg_size] for k in range(0, len(data), seg_size)]
+        for piece in pieces:
+            seq = ep.seq[from_server]
+            ep.seq[from_server] = seq + len(piece)
+            seg = F.tcp_segment(F.u16(src[1]), F.u16(dst[1]), F.u32(seq & 0xFFFFFFFF), F.u32(0), 0x18, piece)
+            frame = F.ethernet(dst[2], src[2], ep.ipv == 6, F.ip_header(ep.ipv == 6, src[0], dst[0], 6, len(seg)) + seg)
+            out.append((frame, t, from_server, list(g)))
+            t += dt
     return out
 
 
